@@ -108,6 +108,7 @@ type vhRefEnc struct {
 	w        vhW
 	version  int
 	flexible bool
+	unknown  bool   // every tag buffer carries one tagged field that no schema defines (decoders must skip it)
 	problem  string // set when the value cannot be encoded from the snapshot (type unknown, field missing)
 }
 
@@ -209,8 +210,19 @@ func (e *vhRefEnc) structure(v reflect.Value) {
 		}
 	}
 	if e.flexible {
-		e.w.uvarint(0) // tag buffer: no tagged field is defined for any message of the snapshot
+		e.tagBuffer() // no tagged field is defined for any message of the snapshot
 	}
+}
+
+func (e *vhRefEnc) tagBuffer() {
+	if !e.unknown {
+		e.w.uvarint(0)
+		return
+	}
+	e.w.uvarint(1)   // one tagged field
+	e.w.uvarint(200) // tag id (two-byte varint), unknown to every schema
+	e.w.uvarint(2)   // size
+	e.w.raw(vhBytes("unknown-tagged-field", 2))
 }
 
 func vhFieldByName(v reflect.Value, name string) (reflect.Value, bool) {
@@ -258,17 +270,17 @@ func vhRefCovers(t reflect.Type) bool {
 	return true
 }
 
-func vhRefResponseFrame(msg Message, version int, corr int32) (frame []byte, covered bool, problem string) {
+func vhRefResponseFrame(msg Message, version int, corr int32, unknown bool) (frame []byte, covered bool, problem string) {
 	v := reflect.ValueOf(msg).Elem()
 	min, max, flexFrom, ok := vhRefRange(v.Type().String())
 	if !ok || version < min || version > max || !vhRefCovers(v.Type()) {
 		return nil, false, ""
 	}
-	e := &vhRefEnc{version: version, flexible: flexFrom >= 0 && version >= flexFrom}
+	e := &vhRefEnc{version: version, flexible: flexFrom >= 0 && version >= flexFrom, unknown: unknown}
 	e.w.i32(0)
 	e.w.i32(corr)
 	if e.flexible {
-		e.w.uvarint(0) // response header v1: tag buffer
+		e.tagBuffer() // response header v1
 	}
 	e.structure(v)
 	n := len(e.w.b) - 4
@@ -276,13 +288,13 @@ func vhRefResponseFrame(msg Message, version int, corr int32) (frame []byte, cov
 	return e.w.b, true, e.problem
 }
 
-func vhRefRequestFrame(msg Message, apiKey, version int, corr int32, clientID string) (frame []byte, covered bool, problem string) {
+func vhRefRequestFrame(msg Message, apiKey, version int, corr int32, clientID string, unknown bool) (frame []byte, covered bool, problem string) {
 	v := reflect.ValueOf(msg).Elem()
 	min, max, flexFrom, ok := vhRefRange(v.Type().String())
 	if !ok || version < min || version > max || !vhRefCovers(v.Type()) {
 		return nil, false, ""
 	}
-	e := &vhRefEnc{version: version, flexible: flexFrom >= 0 && version >= flexFrom}
+	e := &vhRefEnc{version: version, flexible: flexFrom >= 0 && version >= flexFrom, unknown: unknown}
 	e.w.i32(0)
 	e.w.i16(int16(apiKey))
 	e.w.i16(int16(version))
@@ -294,7 +306,7 @@ func vhRefRequestFrame(msg Message, apiKey, version int, corr int32, clientID st
 		} else {
 			e.w.str(clientID)
 		}
-		e.w.uvarint(0)
+		e.tagBuffer()
 	} else {
 		e.w.str(clientID)
 	}
@@ -352,11 +364,13 @@ func vhRefEq(a, b reflect.Value, version int) bool {
 
 // H3: the frames the library writes are the reference frames, and the reference frames decode to the values.
 func VH_C04_RefResponse(apiKey, version, shape int) {
+	unknown := shape >= 10 // shape 10+s: shape s, and every tag buffer of the reference frame holds an unknown tagged field
+	shape %= 10
 	mt := vhMsgType(apiKey, version, true)
 	msg := mt.new()
 	vhFill(reflect.ValueOf(msg).Elem(), "m", shape)
 	corr := vhInt32("corr")
-	ref, covered, problem := vhRefResponseFrame(msg, version, corr)
+	ref, covered, problem := vhRefResponseFrame(msg, version, corr, unknown)
 	if !covered {
 		vhReach("c04-ref-not-covered-by-snapshot")
 		return
@@ -365,7 +379,9 @@ func VH_C04_RefResponse(apiKey, version, shape int) {
 	var buf bytes.Buffer
 	err := WriteResponse(&buf, int16(version), corr, msg)
 	vhAssert(err == nil, "ref-response-write-ok")
-	vhAssert(vhBytesEq(buf.Bytes(), ref), "response-frame-equals-reference-encoding")
+	if !unknown {
+		vhAssert(vhBytesEq(buf.Bytes(), ref), "response-frame-equals-reference-encoding")
+	}
 	fc := &vhFakeConn{data: append(append([]byte{}, ref...), 0xAA, 0xBB)}
 	conn := NewConn(fc, "vh")
 	id, got, err := ReadResponse(conn, ApiKey(apiKey), int16(version))
@@ -377,12 +393,14 @@ func VH_C04_RefResponse(apiKey, version, shape int) {
 }
 
 func VH_C04_RefRequest(apiKey, version, shape int) {
+	unknown := shape >= 10
+	shape %= 10
 	mt := vhMsgType(apiKey, version, false)
 	msg := mt.new()
 	vhFill(reflect.ValueOf(msg).Elem(), "m", shape)
 	corr := vhInt32("corr")
 	clientID := vhString("client", vhLen("client", shape, false))
-	ref, covered, problem := vhRefRequestFrame(msg, apiKey, version, corr, clientID)
+	ref, covered, problem := vhRefRequestFrame(msg, apiKey, version, corr, clientID, unknown)
 	if !covered {
 		vhReach("c04-ref-not-covered-by-snapshot")
 		return
@@ -391,7 +409,9 @@ func VH_C04_RefRequest(apiKey, version, shape int) {
 	var buf bytes.Buffer
 	err := WriteRequest(&buf, int16(version), corr, clientID, msg)
 	vhAssert(err == nil, "ref-request-write-ok")
-	vhAssert(vhBytesEq(buf.Bytes(), ref), "request-frame-equals-reference-encoding")
+	if !unknown {
+		vhAssert(vhBytesEq(buf.Bytes(), ref), "request-frame-equals-reference-encoding")
+	}
 	fc := &vhFakeConn{data: append(append([]byte{}, ref...), 0xAA, 0xBB)}
 	conn := NewConn(fc, "vh")
 	v, id, cid, got, err := ReadRequest(conn)
